@@ -25,6 +25,21 @@ Theorem call_cb_is_spec : forall m f l p, spec_cb m f l = Some p -> call_cb m f 
 Proof. exact call_cb_is_spec_l. Qed.
 Print Assumptions call_cb_is_spec.
 
+(* callbacks that throw: a callback that never throws gives the result above; the throw of the
+   first invocation that is actually reached (all earlier ones returned without stopping the
+   method) comes out of the method and the receiver is untouched (no partial mutation) *)
+Theorem call_cbT_total : forall m f l,
+  call_cbT m (fun e i a => Some (f e i a)) l = (Some (fst (call_cb m f l)), l).
+Proof. exact call_cbT_total_l. Qed.
+Theorem cb_throw_propagates : forall m f pre x post,
+  is_cb_method m = true ->
+  passes m f (pre ++ x :: post)%list 0 pre = true ->
+  f x (zlen pre) (pre ++ x :: post)%list = None ->
+  call_cbT m f (pre ++ x :: post)%list = (None, (pre ++ x :: post)%list).
+Proof. exact cb_throw_propagates_l. Qed.
+Print Assumptions call_cbT_total.
+Print Assumptions cb_throw_propagates.
+
 (* reduce(cb, initial?) for every reducer; an omitted (or null) initial value starts from the
    first element *)
 Theorem reduce_is_spec : forall f l init,
